@@ -40,6 +40,7 @@ def run_one(cfg, chooser, max_steps=6000):
     class Source(ItemSource):
         def __init__(self):
             self.next = 0
+            self.limit = cfg['items']
 
         @asyncio.coroutine
         def get_item(self):
@@ -51,11 +52,11 @@ def run_one(cfg, chooser, max_steps=6000):
                 self.next += 1
                 log.append(('source_raise', self.next - 1))
                 raise Boom('source')
-            if cfg.get('dynamic') and self.next >= state['available'] and self.next < cfg['items']:
+            if cfg.get('dynamic') and self.next >= state['available'] and self.next < self.limit:
                 # like the URL table: further items only exist once earlier ones have been processed
                 log.append(('get_item_none', None, loop.steps))
                 return None
-            if self.next < cfg['items']:
+            if self.next < self.limit:
                 item = Item(self.next)
                 self.next += 1
                 state['supplied'].append(item.n)
@@ -126,7 +127,13 @@ def run_one(cfg, chooser, max_steps=6000):
             loop.add_external('stop', do_stop)
         if changes:
             loop.add_external('conc=%d#0' % changes[0], make_change(0))
-        return await pipeline.process()
+        result = await pipeline.process()
+        for _ in range(cfg.get('more_runs') or 0):
+            # the same Pipeline object is used again after it has finished: the source has new items by then
+            log.append(('process_again', None, loop.steps))
+            source.limit += cfg['items']
+            result = await pipeline.process()
+        return result
 
     main = loop.create_task(main_wrapper())
     obs = {'cfg': cfg}
@@ -157,7 +164,7 @@ def run_one(cfg, chooser, max_steps=6000):
 
 def judge(obs, part, replay):
     cfg, log, state = obs['cfg'], obs['log'], obs['state']
-    n_items, n_tasks = cfg['items'], cfg['tasks']
+    n_items, n_tasks = cfg['items'] * (1 + (cfg.get('more_runs') or 0)), cfg['tasks']
     starts = {}
     ends = {}
     in_flight = 0
@@ -304,6 +311,9 @@ def gen_cfg(rng, small):
         cfg['task_raises'] = [rng.randrange(tasks), rng.randrange(items)]
     elif r < 0.6:
         cfg['source_raises_at'] = rng.randrange(items + 1)
+    if not cfg.get('stop') and not cfg.get('task_raises') and cfg.get('source_raises_at') is None and not cfg.get('dynamic') \
+            and rng.random() < 0.25:
+        cfg['more_runs'] = rng.choice([1, 1, 2])
     if rng.random() < 0.4:
         n = rng.choice([1, 2, 3])
         ch = [rng.choice([0, 1, 2, 3, 4]) for _ in range(n)]
@@ -313,6 +323,9 @@ def gen_cfg(rng, small):
             if ch[-1] == 0:
                 ch.append(rng.choice([1, 2]))
         cfg['changes'] = ch
+        if 0 in ch:
+            # (starting process() while the pipeline is paused is outside the property, see DESIGN 9 observations)
+            cfg.pop('more_runs', None)
     return cfg
 
 
@@ -334,6 +347,8 @@ DIRECTED = [
     {'items': 4, 'tasks': 1, 'conc': 2, 'dynamic': 2, 'changes': [3, 2], 'stop': True},
     {'items': 0, 'tasks': 1, 'conc': 2, 'stop': True},
     {'items': 2, 'tasks': 1, 'conc': 2, 'task_raises': [0, 1], 'changes': [0]},
+    {'items': 2, 'tasks': 1, 'conc': 1, 'more_runs': 1},
+    {'items': 3, 'tasks': 2, 'conc': 2, 'more_runs': 2, 'source_delay': True},
     {'items': 3, 'tasks': 2, 'conc': 3, 'task_raises': [1, 0], 'changes': [0]},
     {'items': 2, 'tasks': 1, 'conc': 2, 'task_raises': [0, 0], 'changes': [1, 0]},
 ]
